@@ -39,7 +39,9 @@ var c13Grammar = struct{ scheme, userinfo, host, port, path, query, frag []strin
 	userinfo: []string{"", "example.com@", "a:b@", "example.com:443@", "%40", "app.example.com%23@", "x@app.example.com@"},
 	host: []string{"app.example.com", "example.com", "sub.app.example.com", "evilexample.com", "example.com.evil.com", "app.example.com.", "APP.EXAMPLE.COM",
 		"app%2eexample%2ecom", "evil.com%23.example.com", "evil.com\\.example.com", "evil.com\\@app.example.com", "evil.com/.example.com", "10.0.0.1", "[::1]", "",
-		"notexample.com", "example.com.", "xn--example.com", "evil.com?.example.com", "evil.com#.example.com", "app.example.com\t", "evil.com%00.example.com", "app.example.comevil.com"},
+		"notexample.com", "example.com.", "xn--example.com", "evil.com?.example.com", "evil.com#.example.com", "app.example.com\t", "evil.com%00.example.com", "app.example.comevil.com",
+		// label-boundary family: the configured domain with 1..2 extra leading characters and no dot, one character short, and a legitimate one-letter label
+		"xexample.com", "-example.com", "xxexample.com", "1example.com", "xample.com", "x.example.com", "xcorp.example.org"},
 	port:  []string{"", ":443", ":8443", ":", ":x", ":443x"},
 	path:  []string{"", "/", "/cb", "/a/../b", "/%2e%2e/", "/..;/", "//evil.com", "/cb/..", "/\\..\\x", "/a..b"},
 	query: []string{"", "?", "?x=1"},
